@@ -79,6 +79,75 @@ def value_digest(v):
     return ("other", repr(v))
 
 
+def order_battery(fqe, seed, tier, reverse):
+    """A fixed list of calls, each on freshly built objects from its own seed, executed in a seed-derived order (or
+    its reverse).  Only module-level state survives from one call to the next, so the value of every call must be
+    the same in both orders (and in a process that has executed nothing else)."""
+    import random
+    import fqe_util as U
+    from openfermion import FermionOperator, hermitian_conjugated, bravyi_kitaev_code, parity_code, jordan_wigner_code
+    calls = []
+    shapes = [(2, 2, 0), (3, 2, 0), (3, 3, 1), (2, 1, 1)] if tier == "quick" else \
+        [(2, 2, 0), (3, 2, 0), (3, 3, 1), (2, 1, 1), (4, 4, 0), (4, 3, 1), (3, 4, 0)]
+    codes = {"jw": None, "bk": bravyi_kitaev_code, "parity": parity_code, "jwcode": jordan_wigner_code}
+
+    def wf(norb, n, sz, tag):
+        r = random.Random(f"{seed}-{norb}-{n}-{sz}-{tag}")
+        w = fqe.Wavefunction([[n, sz, norb]])
+        U.random_fill(w, r, zero_p=0.0)
+        return w, r
+    for (norb, n, sz) in shapes:
+        for cname, cf in codes.items():
+            def c_to(norb=norb, n=n, sz=sz, cf=cf):
+                w, _ = wf(norb, n, sz, "cirq")
+                return fqe.to_cirq(w, binarycode=None if cf is None else cf(2 * norb))
+            calls.append((f"to_cirq:{norb}:{n}:{sz}:{cname}", c_to))
+
+            def c_from(norb=norb, n=n, sz=sz, cf=cf):
+                r = random.Random(f"{seed}-{norb}-state")
+                st = numpy.array([complex(r.randint(-3, 3), r.randint(-3, 3)) for _ in range(4 ** norb)])
+                w = fqe.from_cirq(st, 0.5, binarycode=None if cf is None else cf(2 * norb))
+                return numpy.concatenate([numpy.asarray(w.get_coeff(k)).ravel() for k in sorted(w.sectors())] or [numpy.zeros(1)])
+            calls.append((f"from_cirq:{norb}:{cname}", c_from))
+        for pat in ("i^ j", "i j^", "i^ j^ k l", "i^ k j^ l"):
+            def c_rdm(norb=norb, n=n, sz=sz, pat=pat):
+                w, r = wf(norb, n, sz, "rdm")
+                return numpy.asarray(w.rdm(pat))
+            calls.append((f"rdm:{norb}:{n}:{sz}:{pat}", c_rdm))
+        for hk in ("restricted", "diagonal", "sparse", "sparse3"):
+            def c_ham(norb=norb, n=n, sz=sz, hk=hk):
+                import props.C01 as C01
+                w, r = wf(norb, n, sz, hk)
+                if hk == "restricted":
+                    ham = fqe.get_restricted_hamiltonian((C01.rand_tensor(r, norb, 1, 0.8, True), C01.rand_tensor(r, norb, 2, 0.3, True)), e_0=0.5)
+                elif hk == "diagonal":
+                    ham = fqe.get_diagonal_hamiltonian(numpy.array([float(r.randint(-2, 2)) for _ in range(norb)]))
+                else:
+                    op = C01.random_fermionop(r, norb, FermionOperator, True, True, 1 if hk == "sparse" else 3)
+                    if not op.terms:
+                        op = FermionOperator(((0, 1), (0, 0)), 1.0)
+                    ham = fqe.get_sparse_hamiltonian(op)
+                a = w.apply(ham)
+                w.normalize()
+                b = w.time_evolve(0.1, ham)
+                key = (n, sz)
+                return numpy.concatenate([a.get_coeff(key).ravel(), b.get_coeff(key).ravel(), [w.expectationValue(ham)]])
+            calls.append((f"ham:{norb}:{n}:{sz}:{hk}", c_ham))
+    order = list(range(len(calls)))
+    random.Random(f"{seed}-order").shuffle(order)
+    if reverse:
+        order.reverse()
+    out = {}
+    for k in order:
+        name, fn = calls[k]
+        try:
+            v = numpy.asarray(fn(), dtype=complex).ravel()
+            out[name] = [[float(x.real), float(x.imag)] for x in v]
+        except Exception as exc:
+            out[name] = {"raise": type(exc).__name__}
+    return out
+
+
 def run(ctx):
     fqe = ctx.fqe
     import props.C01 as C01
@@ -89,7 +158,8 @@ def run(ctx):
     nhist = 12 if quick else 150
     for hi in range(nhist):
         norb = rng.choice([2, 2, 3])
-        base = C01.make_wfn(ctx, rng.choice(["single", "multi"]), norb, rng)
+        bkind = ["single", "multi", "numberbroken", "multi", "spinbroken", "single"][hi % 6]
+        base = C01.make_wfn(ctx, bkind, norb, rng)
         pool = []
 
         def add(kind, val):
@@ -123,12 +193,31 @@ def run(ctx):
             makers[add("ham", mk_s3())] = mk_s3
         h3 = C01.rand_tensor(rng, norb, 3, 0.01, False)
         add("arr", h3)
+        opham = []
+        if bkind == "numberbroken":
+            # Sz-conserving, number-breaking quadratic operators (hopping + singlet-type pairing), used directly as
+            # Hamiltonians: their propagation works on an internal beta-inverted copy of the wavefunction
+            for _ in range(2):
+                pop = FermionOperator()
+                for p in range(norb):
+                    for q in range(norb):
+                        pop += FermionOperator(((2 * p, 1), (2 * q, 0)), complex(U.gint(rng)) / 4)
+                        pop += FermionOperator(((2 * p + 1, 1), (2 * q + 1, 0)), complex(U.gint(rng)) / 4)
+                        pop += FermionOperator(((2 * p, 1), (2 * q + 1, 1)), complex(U.gint(rng)) / 4)
+                pop = (pop + hermitian_conjugated(pop)) * 0.5
+                if len(pop.terms):
+                    opham.append(add("op", pop))
+        if bkind == "spinbroken":
+            g1 = C01.rand_tensor(rng, 2 * norb, 1, 0.8, True)
+            add("arr", g1)
+            mk_g = (lambda a=g1.copy(): fqe.get_gso_hamiltonian((a.copy(),)))
+            makers[add("ham", mk_g())] = mk_g
         recorded = []     # (description, thunk, digest)
         log = []
         nsteps = rng.randint(30, 60)
         for step in range(nsteps):
             wf = [i for i, (k, _) in enumerate(pool) if k == "wfn"]
-            hams = [i for i, (k, _) in enumerate(pool) if k == "ham"]
+            hams = [i for i, (k, _) in enumerate(pool) if k == "ham"] + opham * 3
             i, j, hm = rng.choice(wf), rng.choice(wf), rng.choice(hams)
             kind = rng.choice(["apply", "evolve", "expect", "rdm", "add", "sub", "cirq", "build", "iht", "copy-mutate",
                                "empty-copy", "antisymm", "inplace-scale", "inplace-axpy", "inplace-evolve", "flip-path",
@@ -161,6 +250,8 @@ def run(ctx):
                     ops = [x for x in range(len(pool)) if pool[x][0] == "op"]
                     thunk = (lambda o=pool[rng.choice(ops)][1], n=norb: fqe.get_hamiltonian_from_openfermion(o, norb=n))
                 elif kind == "iht":
+                    if pool[hm][0] != "ham":
+                        continue
                     thunk = (lambda b=pool[hm][1]: b.iht(0.3))
                 elif kind == "antisymm":
                     arrs = [x for x in range(len(pool)) if pool[x][0] == "arr" and pool[x][1].ndim == 6]
@@ -233,6 +324,7 @@ def run(ctx):
             changed = [x for x in range(len(before)) if before[x] != after[x]]
             ctx.case(("step", hi, step), sample=log[-1] if hi == 0 and step < 3 else None)
             ctx.count(f"op:{kind}")
+            ctx.count(f"pool:{bkind}")
             allowed = {target} if target is not None else set()
             bad = [x for x in changed if x not in allowed]
             if bad:
@@ -277,6 +369,38 @@ def run(ctx):
                                  {"norb": norb, "nalpha": na, "nbeta": nb, "pattern": pat})
             except Exception as exc:
                 ctx.disagree(f"history:other-path-raises:{type(exc).__name__}", str(exc), {"norb": norb})
+
+
+    # ---- the same calls executed in the opposite order by another process ------------------------------------
+    import json
+    import os
+    import subprocess
+    import sys
+    here = os.path.dirname(os.path.dirname(os.path.abspath(__file__)))
+    mine = order_battery(fqe, ctx.seed, ctx.tier, False)
+    code = ("import sys, json; sys.path.insert(0, %r); from fqe_env import load_fqe; "
+            "fqe = load_fqe(%r, %r); import props.C11 as C11; "
+            "print('@@B@@' + json.dumps(C11.order_battery(fqe, %d, %r, True)))") % (here, ctx.src, ctx.path, ctx.seed, ctx.tier)
+    r = subprocess.run([sys.executable, "-c", code], stdout=subprocess.PIPE, stderr=subprocess.PIPE, text=True, cwd=here)
+    line = [l for l in r.stdout.splitlines() if l.startswith("@@B@@")]
+    if not line:
+        ctx.disagree("history:order-battery-failed", r.stderr[-1500:], {"kind": "order-battery"})
+        return
+    other = json.loads(line[0][5:])
+    for name in sorted(mine):
+        a, b = mine[name], other.get(name)
+        fam = name.split(":")[0]
+        ctx.case(("order", name))
+        ctx.count(f"order-independent:{fam}")
+        if isinstance(a, dict) or isinstance(b, dict):
+            if a != b:
+                ctx.disagree(f"history:order:{fam}:exception-differs", f"{name}: {a if isinstance(a, dict) else 'value'} in one call "
+                             f"order, {b if isinstance(b, dict) else 'value'} in the reverse order", {"call": name})
+            continue
+        va, vb = numpy.array(a), numpy.array(b)
+        if va.shape != vb.shape or numpy.abs(va - vb).max() > 1e-10 * max(1.0, numpy.abs(va).max()):
+            ctx.disagree(f"history:order:{fam}", f"{name}: the value depends on which calls were executed before it in the "
+                         f"process (forward vs reversed order of the same call list)", {"call": name})
 
 
 def replay(ctx, rep):
